@@ -3,6 +3,7 @@
 package c01
 
 import (
+	"bytes"
 	"encoding/hex"
 	"encoding/json"
 	"fmt"
@@ -445,6 +446,56 @@ func chainCarry(rec *hx.Recorder) {
 	rec.Eval("chain-carry", n)
 }
 
+// stdLogger: the option that logs to standard error, in a process whose
+// standard error is closed, unwritable, or nil (a daemon, `2>&-`): logging is
+// a side channel, the entry points still return instead of panicking.
+func stdLogger(rec *hx.Recorder) {
+	valid := (&fitmodel.Stream{HeaderSize: 14, Proto: 0x20, Recs: []fitmodel.Rec{
+		{IsDef: true, Global: 0, Fields: []fitmodel.FieldDef{{Num: 0, Size: 1, Base: 0}}}, {Raw: []byte{4}},
+		{IsDef: true, Local: 1, Global: 20, Fields: []fitmodel.FieldDef{{Num: 253, Size: 4, Base: 0x86}, {Num: 3, Size: 1, Base: 2}}},
+		{Local: 1, Raw: []byte{0, 0xCA, 0x9A, 0x3B, 99}},
+	}}).Bytes()
+	inputs := [][]byte{valid, valid[:20], append([]byte{14}, valid[1:]...), {}}
+	saved := os.Stderr
+	defer func() { os.Stderr = saved }()
+	closed, err := os.CreateTemp(os.Getenv("VERIF_BUILD"), "closed-stderr-*")
+	if err != nil {
+		rec.Note("std-logger: " + err.Error())
+		return
+	}
+	closed.Close()
+	os.Remove(closed.Name())
+	ro, _ := os.Open(os.DevNull) // opened read-only: writes fail
+	n := int64(0)
+	for si, st := range []*os.File{closed, ro, nil} {
+		for _, in := range inputs {
+			for e := 0; e < 2; e++ {
+				os.Stderr = st
+				var p any
+				func() {
+					defer func() { p = recover() }()
+					if e == 0 {
+						fit.Decode(bytes.NewReader(in), fit.WithStdLogger())
+					} else {
+						fit.DecodeChained(bytes.NewReader(in), fit.WithStdLogger())
+					}
+				}()
+				os.Stderr = saved
+				n++
+				if p != nil {
+					rec.Fail("std-logger", "", fmt.Sprintf("%s with WithStdLogger panicked while standard error was %s: %v", entryNames[e], []string{"a closed file", "not writable", "nil"}[si], p),
+						byteCase{Data: hex.EncodeToString(in), Chunk: gen.NoFault("whole", 0), Note: "std-logger"})
+					return
+				}
+			}
+		}
+	}
+	if ro != nil {
+		ro.Close()
+	}
+	rec.Eval("std-logger", n)
+}
+
 func TestC01(t *testing.T) {
 	hx.Main(t, "C01", func(rec *hx.Recorder) {
 		startWatchdog(rec)
@@ -452,6 +503,10 @@ func TestC01(t *testing.T) {
 			rec.Eval("replay", 1)
 			if rp.Sub == "grid" {
 				replayGrid(rec, rp.Case)
+				return
+			}
+			if rp.Sub == "std-logger" {
+				stdLogger(rec)
 				return
 			}
 			var c byteCase
@@ -466,6 +521,7 @@ func TestC01(t *testing.T) {
 		if hx.FirstShard() {
 			grid(t, rec) // enumerations run once, the rapid search in every shard
 			chainCarry(rec)
+			stdLogger(rec)
 		}
 
 		corpus := gen.SmallCorpus(20000)
